@@ -116,6 +116,10 @@ def ber_semantic_variants(rng, mod, t, v, enc0, n, time_kinds=("GeneralizedTime"
             # UTCTime has no canonicalising DER encoder in asn1c (a C06 finding): checks that recognise the value by its
             # DER re-encoding vary GeneralizedTime only
             e.time_kinds = time_kinds
+        elif (n >= 2 and i == n - 2) or rng.random() < 0.15:
+            # REAL values in other BER forms of the same number (even mantissa, longer exponent field, scaling factor,
+            # base 8/16, ISO 6093 decimal notations of many lengths), nothing else changed
+            e = der.Encoder(mod, real_forms=rng)
         else:
             e = der.Encoder(mod, emit_defaults=rng.random() < 0.5, shuffle=rng if rng.random() < 0.6 else None,
                             true_octet=rng.choice([0xff, 0xff, 0x01, 0x80, 0x7f]),
@@ -128,7 +132,7 @@ def ber_semantic_variants(rng, mod, t, v, enc0, n, time_kinds=("GeneralizedTime"
             continue
         fam = "+".join(sorted(e.used))
         # half of them additionally in a non-DER TLV form
-        if rng.random() < 0.5 or e.time_forms is not None:
+        if rng.random() < 0.5 or e.time_forms is not None or e.real_forms is not None:
             b = der.serialize(tree)
         else:
             vs = ber_variants(rng, tree, 1)
